@@ -175,7 +175,11 @@ def c_range_table(ctx):
             return ("RET", v)
         return None
 
-    rows = dt.rows_from_cfg(g, outcome)
+    rows = dt.rows_from_cfg(g, outcome, with_stmts=True)
+    # flow-sensitive view of the int/double locals along one row: a scratch
+    # double gets the role of the operand last loaded into it, an int local
+    # the truth value of the test last assigned to it
+    flow = {"role": {}, "flag": {}}
 
     def operand_role(e):
         e = strip(e)
@@ -185,6 +189,8 @@ def c_range_table(ctx):
         elif e.kind == "MemberExpr" and e.name == "ob_fval":
             e = strip(e.ch[0])
         v = var(e)
+        if v in flow["role"]:
+            return flow["role"][v]
         if v in multi_roles:
             line = e.line or 0
             cur = None
@@ -198,11 +204,44 @@ def c_range_table(ctx):
         mask = (bits["ex_low"] if val["ex_low"] else 0) | (
             bits["ex_high"] if val["ex_high"] else 0)
 
+        flow["role"].clear()
+        flow["flag"].clear()
+
         def interp(node):
             return ev(node.ast)
 
+        def assign(node):
+            """a statement on the row: remember what an int/double local
+            holds from here on"""
+            for name, rhs in find_assign_in(node.ast):
+                if name in role_of_var and name not in multi_roles:
+                    continue
+                r = strip(rhs)
+                src = None
+                if r.kind == "CallExpr" and callee(r) in (
+                        "PyFloat_AS_DOUBLE", "PyFloat_AsDouble"):
+                    src = var(r.ch[1])
+                elif r.kind == "MemberExpr" and r.name == "ob_fval":
+                    src = var(r.ch[0])
+                if src in role_of_var and role_of_var[src] in (
+                        "low", "high", "value"):
+                    flow["role"][name] = role_of_var[src]
+                    flow["flag"].pop(name, None)
+                    continue
+                v_ = ev(rhs)
+                if v_ is not None and not isinstance(v_, tuple) and v_ != "ANY":
+                    flow["flag"][name] = bool(v_)
+                elif isinstance(v_, tuple):
+                    flow["flag"][name] = v_
+                else:
+                    flow["flag"].pop(name, None)
+        interp.assign = assign
+        interp.reset = lambda: (flow["role"].clear(), flow["flag"].clear())
+
         def ev(e):
             e = strip(e)
+            if e.kind == "DeclRefExpr" and e.ref in flow["flag"]:
+                return flow["flag"][e.ref]
             if e.kind == "DeclRefExpr" and e.ref in local_defs \
                     and e.ref not in role_of_var:
                 # a flag local: `int exclude_low = (mask & 1) != 0;`
@@ -391,7 +430,13 @@ def _decide(rows, interp_for, val, accept_outcomes, where):
     matches = []
     for r in rows:
         ok = True
+        if hasattr(interp, "reset"):
+            interp.reset()
         for node, truth in r.atoms:
+            if truth is None:
+                if hasattr(interp, "assign"):
+                    interp.assign(node)
+                continue
             v = interp(node)
             if v is None:
                 raise AnalysisError(
